@@ -1012,7 +1012,8 @@ do_map(Ctx& x, int s)
             x.c.nontrivial(P_C06);
     }
     if (r != AcquireStatus_Ok) {
-        x.c.fail("C06", "map-fails", x.running ? "running" : "idle", "stream %d: acquire_map_read failed for a client that had unmapped its previous region", s);
+        // (soft in other properties' runs: the client simply has no region this time and goes on polling)
+        x.c.fail_soft("C06", "map-fails", x.running ? "running" : "idle", "stream %d: acquire_map_read failed for a client that had unmapped its previous region", s);
         return;
     }
     size_t n = (size_t)((uint8_t*)e - (uint8_t*)b);
